@@ -101,6 +101,15 @@ type c09Case struct {
 	// machine, probe acks in order from the prober, and every state sync from a
 	// stream goroutine of its own - all at the same time.
 	Lanes bool `json:"lanes,omitempty"`
+	// MsgLanes > 1 (lanes mode): the gossip messages arrive on that many
+	// goroutines at once, every one of them delivering the whole list in order
+	// - one is memberlist's packet handler, the others are stream connections
+	// (memberlist runs a goroutine per connection and hands user messages
+	// received there to the same delegate), i.e. every message arrives 2-3
+	// times, concurrently, as duplicates from several peers do. In two of
+	// three such cases every goroutine of the node lingers after releasing one
+	// of serf's mutexes (helpers: lockYield).
+	MsgLanes int `json:"msg_lanes,omitempty"`
 }
 
 // ---- gate for confirmed, unfixed crash classes ---------------------------------
@@ -705,6 +714,9 @@ func genC09(t *rapid.T) c09Case {
 		c.KeyFile = rapid.SampledFrom([]int{0, 0, 1, 2}).Draw(t, "key_file")
 	}
 	c.Lanes = rapid.IntRange(0, 7).Draw(t, "lanes") == 0
+	if c.Lanes {
+		c.MsgLanes = rapid.SampledFrom([]int{1, 2, 2, 3}).Draw(t, "msg-lanes")
+	}
 	clk := &c09Clk{}
 	n := rapid.IntRange(1, 16).Draw(t, "n")
 	if c.OpenQuery && rapid.IntRange(0, 3).Draw(t, "close") == 0 {
@@ -1314,7 +1326,15 @@ func bodyC09Lanes(c *c09Case, h *c09H, x *vkit.Ctx) {
 		syncs = append(syncs, pendingMerge)
 	}
 	lanes := [][]*c09In{msgs, events, pings}
+	for k := 1; k < min(c.MsgLanes, 3); k++ {
+		lanes = append(lanes, msgs)
+	}
 	lanes = append(lanes, syncs...)
+	if c.MsgLanes > 1 {
+		lockYield((len(c.In) + c.MsgLanes) % 3)
+		defer lockYield(0)
+		x.Labelf("lanes:gossip-on-%d-goroutines", min(c.MsgLanes, 3))
+	}
 	start := make(chan struct{})
 	done := make(chan struct{}, len(lanes))
 	busy := 0
